@@ -86,6 +86,9 @@ func Job(id int, kind string, g *Gauge) func() {
 		case "panic":
 			g.Cur--
 			panic(fmt.Sprintf("boom-%d", id))
+		case "panic-nilptr": // panics with a typed nil pointer (e.g. panic(err) where err is a nil *MyError)
+			g.Cur--
+			panic((*Gauge)(nil))
 		case "timed-panic": // takes 5 virtual ms, then panics
 			time.Sleep(5 * time.Millisecond)
 			g.Cur--
